@@ -253,6 +253,15 @@ class Goebner:
             rhs = self._to_sympy_term(t.right)
             if lhs is None or rhs is None:
                 return None
+            if t.operator_type in (BinaryOperator.Division, BinaryOperator.Modulo) and (
+                lhs.is_Integer and rhs.is_Integer and rhs != 0
+            ):
+                # clingo divides numbers towards zero and its remainder has the sign of the dividend; sympy's floor and Mod
+                # round down
+                quotient = abs(int(lhs)) // abs(int(rhs)) * (1 if (int(lhs) < 0) == (int(rhs) < 0) else -1)
+                if t.operator_type == BinaryOperator.Division:
+                    return cast(Expr, Integer(quotient))
+                return cast(Expr, Integer(int(lhs) - int(rhs) * quotient))
             if t.operator_type == BinaryOperator.Division:
                 return cast(Expr, floor(lhs / rhs))
             if t.operator_type == BinaryOperator.Minus:
